@@ -1,4 +1,5 @@
 From Coq Require Import ExtrOcamlBasic NArith.
-From LLRP Require Import Header.Header.
+From LLRP Require Import Header.Header Header.ClientState.
 Extraction Language OCaml.
-Extraction "model.ml" hdr_decode read_header read_header_chunks read_full hdr_encode write_header encode_batch decode_batch.
+Extraction "model.ml" hdr_decode read_header read_header_chunks read_full hdr_encode write_header encode_batch decode_batch
+  c_new client_run client_read_header reading client_observe client_write_header client_offers.
